@@ -141,8 +141,8 @@ Definition pstate : Type := (list nat * list N)%type.     (* operand stack (top 
 Definition binop_text (ptg : N) : list N :=
   match ptg with
   | 0x03 => lit "+" | 0x04 => lit "-" | 0x05 => lit "*" | 0x06 => lit "/" | 0x07 => lit "^"
-  | 0x08 => lit "&" | 0x09 => lit "<" | 0x0A => lit "<=" | 0x0B => lit "=" | 0x0C => lit ">"
-  | 0x0D => lit ">=" | 0x0E => lit "<>" | 0x0F => lit " " | 0x10 => lit "," | 0x11 => lit ":"
+  | 0x08 => lit "&" | 0x09 => lit "<" | 0x0A => lit "<=" | 0x0B => lit "=" | 0x0C => lit ">="
+  | 0x0D => lit ">" | 0x0E => lit "<>" | 0x0F => lit " " | 0x10 => lit "," | 0x11 => lit ":"
   | _ => []      (* unreachable!() — the caller dispatches only 0x03..=0x11 here *)
   end.
 
@@ -697,10 +697,14 @@ Inductive expr :=
 | EAttrSkip (etpg w : N) (a : expr).           (* a display-neutral PtgAttr* in front of a *)
 
 (* ---------- rendering (the A1 text) ---------- *)
+(* operator tokens of MS-XLS 2.5.198: PtgAdd 03 .. PtgConcat 08, PtgLt 09, PtgLe 0A, PtgEq 0B,
+   PtgGe 0C, PtgGt 0D, PtgNe 0E, PtgIsect 0F, PtgUnion 10, PtgRange 11.  (Until repo commit
+   c288315 the code — and this table, which had been copied from it — had 0C and 0D swapped; the
+   xlsx twin of fixture issues.xls shows A1>A2 where the xls token 0D was rendered A1>=A2.) *)
 Definition spec_binop (op : N) : list N :=
   match op with
   | 3 => lit "+" | 4 => lit "-" | 5 => lit "*" | 6 => lit "/" | 7 => lit "^" | 8 => lit "&"
-  | 9 => lit "<" | 10 => lit "<=" | 11 => lit "=" | 12 => lit ">" | 13 => lit ">=" | 14 => lit "<>"
+  | 9 => lit "<" | 10 => lit "<=" | 11 => lit "=" | 12 => lit ">=" | 13 => lit ">" | 14 => lit "<>"
   | 15 => lit " " | 16 => lit "," | 17 => lit ":"
   | _ => []
   end.
